@@ -46,8 +46,11 @@ def main(argv=None) -> int:
                                 + "; ".join(f"{b['module']}:{b['where']} {b['text']}" for b in bad[:5]))
         mod = importlib.import_module(f"sa.props.{pid.lower()}")
         mod.check(ctx)
-        if a.tier == "thorough" and hasattr(mod, "thorough"):
-            mod.thorough(ctx)
+        if a.tier == "thorough":
+            if hasattr(mod, "thorough"):
+                mod.thorough(ctx)
+            from . import selftest
+            selftest.run(ctx)
         if a.replay:
             with open(a.replay) as fh:
                 want = json.load(fh).get("key")
